@@ -6,7 +6,7 @@ Import ListNotations.
 Open Scope Z_scope.
 
 Definition circuit_eqb (a b : circuit) : bool :=
-  Z.eqb (cw a) (cw b) && lzeqb (cops a) (cops b) && Bool.eqb (cfree a) (cfree b).
+  Z.eqb (cw a) (cw b) && lzeqb (cops a) (cops b) && Bool.eqb (cfree a) (cfree b) && Bool.eqb (cgates a) (cgates b).
 Definition event_eqb (a b : event) : bool :=
   match a, b with
   | ERun c n, ERun c' n' => circuit_eqb c c' && Z.eqb n n'
@@ -35,13 +35,15 @@ Definition record_eqb (a b : record) : bool :=
   end.
 
 (* what the harness observes after a call: outcome, the trace of the innermost runner, and per level
-   (outermost first) the two counters; per tracker (outermost first) the records in its file *)
-Definition observation := (outcome * list event * list (Z * Z) * list (list record))%type.
+   (outermost first) the two counters; per tracker (outermost first) the records in its file and the
+   records left in its raw_data list *)
+Definition observation := (outcome * list event * list (Z * Z) * list (list record) * list (list record))%type.
 Definition obs_eqb (x : runner * outcome * list event) (o : observation) : bool :=
-  let '(out, tr, cnt, fl) := o in
+  let '(out, tr, cnt, fl, pd) := o in
   outcome_eqb (st_outcome x) out && leqb event_eqb (st_trace x) tr
   && leqb (peqb Z.eqb Z.eqb) (all_counters (st_runner x)) cnt
-  && leqb (leqb record_eqb) (files (st_runner x)) fl.
+  && leqb (leqb record_eqb) (files (st_runner x)) fl
+  && leqb (leqb record_eqb) (pendings (st_runner x)) pd.
 Fixpoint all2 {A B} (e : A -> B -> bool) (l1 : list A) (l2 : list B) : bool :=
   match l1, l2 with
   | [], [] => true
